@@ -101,6 +101,21 @@ def build_case(rng, tier):
     )
     from statham.schema.property import Property
 
+    if rng.random() < 0.08:
+        # look-alike intermediates: two distinct, structurally identical classes whose children are differently NAMED
+        # (themselves look-alike) classes - whatever tells visited nodes apart must go by identity, not by ==
+        leaf_props = rng.choice([{"v": String()}, {}, {"v": Integer(), "w": String()}])
+        pos = rng.choice(["direct", "items", "anyOf", "additionalProperties", "tuple_items"])
+        mids, leaves = [], []
+        for tag in ("Home", "Work") + (("Other",) if rng.random() < 0.3 else ()):
+            leaf = Object.inline(tag + "Address", properties={k: Property(type(e)()) for k, e in leaf_props.items()})
+            held = {"direct": leaf, "items": Array(leaf), "anyOf": AnyOf(String(), leaf), "additionalProperties": Element(additionalProperties=leaf),
+                    "tuple_items": Array([String(), leaf])}[pos]
+            mids.append(Object.inline(tag + "Contact", properties={"address": Property(held)}))
+            leaves.append(leaf)
+        top = Object.inline("Book", properties={"c%d" % i: Property(m) for i, m in enumerate(mids)})
+        roots = rng.choice([[top], list(mids), [Array(mids[0]), mids[1]], [top] + leaves[::-1]])
+        return roots, {"n": len(mids) + len(leaves) + 1, "edges": "look-alike", "cyclic_wanted": False}
     nmax = 6 if tier == "quick" else 12
     n = rng.randint(1, nmax)
     classes = [Object.inline("C%d" % i) for i in range(n)]
